@@ -102,16 +102,16 @@ Section Steps.
   Lemma assemble w o ob B1 seq1 cme s' bs r :
     ob = observe s' bs r ->
     st_batches w o ob = ([], B1, seq1, cme) ->
-    e_current univ o ob = [] -> e_commit_nonce accts w o ob cme = [] ->
+    e_current univ o ob = [] -> e_commit_nonce accts w o ob cme = [] -> e_commit_missed accts w o ob = [] ->
     e_lost accts univ w o ob = [] -> e_admitted accts univ w o ob = [] -> e_liveness p accts univ w o ob = [] ->
     Inv s' -> closed s' ->
     (forall sl, In sl (live (obs_cmt accts ob) B1) <-> In sl (batched s')) ->
     (forall h, In h (map fst (hashmap s')) -> In h (st_sub w o)) ->
-    check_step w o ob = ([], mkW (live (obs_cmt accts ob) B1) seq1 (st_sub w o) (st_arr univ w o ob) (st_led w o) ob).
+    check_step w o ob = ([], mkW (live (obs_cmt accts ob) B1) seq1 (st_sub w o) (st_arr univ w o ob) (st_led w o) (st_live univ w o ob) ob).
   Proof.
-    intros -> Hb H2 H3 H5 H6 H10 I C HB Hsub. unfold MempoolSpec.check_step. rewrite Hb.
+    intros -> Hb H2 H3 H4 H5 H6 H10 I C HB Hsub. unfold MempoolSpec.check_step. rewrite Hb.
     destruct (post_checks p accts univ s' o bs r _ w I C HB Hsub) as [P1 [P2 [P3 P4]]].
-    rewrite H2, H3, H5, H6, H10, P1, P2, P3, P4. reflexivity.
+    rewrite H2, H3, H4, H5, H6, H10, P1, P2, P3, P4. reflexivity.
   Qed.
 
   (** the batched set seen through the live filter with the post-state commit nonces *)
@@ -128,7 +128,7 @@ Section Steps.
   Lemma conclude w o B1 seq1 cme s' bs r :
     let ob := observe s' bs r in
     st_batches w o ob = ([], B1, seq1, cme) ->
-    e_current univ o ob = [] -> e_commit_nonce accts w o ob cme = [] ->
+    e_current univ o ob = [] -> e_commit_nonce accts w o ob cme = [] -> e_commit_missed accts w o ob = [] ->
     e_lost accts univ w o ob = [] -> e_admitted accts univ w o ob = [] -> e_liveness p accts univ w o ob = [] ->
     Inv s' -> closed s' ->
     (forall sl, In sl (live (obs_cmt accts ob) B1) <-> In sl (batched s')) ->
@@ -139,11 +139,12 @@ Section Steps.
        alookup tx_eqb t (st_arr univ w o ob) = alookup slot_eqb (slot_of t) (arrival s')) ->
     NoDup (map fst (arrival s')) ->
     (forall a, lookup0 a (st_led w o) <= get_cn s' a) ->
+    (forall h, In h (st_live univ w o ob) -> In h (map fst (hashmap s'))) ->
     fst (check_step w o ob) = [] /\ Sim (snd (check_step w o ob)) s'.
   Proof.
-    intros ob Hb H2 H3 H5 H6 H10 I C HB Hsub Hseq Hfr Harr Hnd Hled.
-    rewrite (assemble w o ob B1 seq1 cme s' bs r eq_refl Hb H2 H3 H5 H6 H10 I C HB Hsub).
-    split; [reflexivity|]. cbn [snd]. constructor; cbn [w_B w_seq w_sub w_arr w_led w_prev]; auto.
+    intros ob Hb H2 H3 H4 H5 H6 H10 I C HB Hsub Hseq Hfr Harr Hnd Hled Hlive.
+    rewrite (assemble w o ob B1 seq1 cme s' bs r eq_refl Hb H2 H3 H4 H5 H6 H10 I C HB Hsub).
+    split; [reflexivity|]. cbn [snd]. constructor; cbn [w_B w_seq w_sub w_arr w_led w_live w_prev]; auto.
     exists bs, r. reflexivity.
   Qed.
 
@@ -186,6 +187,7 @@ Section Steps.
       - reflexivity.
       - apply e_cn_same. intros a Ha. cbn [cn_ok]. rewrite Ep.
         rewrite (obs_cmt_observe p accts univ s' [] 0 a Ha), (obs_cmt_observe p accts univ s pbs pr a Ha). apply N.eqb_refl.
+      - reflexivity.
       - apply e_lost_ok. intros t Ht H1 H2. exfalso. rewrite Ep in H1.
         rewrite (held_same s s' pbs pr [] 0 t I I') in H2 by reflexivity. congruence.
       - reflexivity.
@@ -199,6 +201,7 @@ Section Steps.
       - apply (S_arr _ _ _ _ _ S).
       - apply (S_arr_nd _ _ _ _ _ S).
       - apply (S_led _ _ _ _ _ S).
+      - cbn [st_live]. intros h Hh. apply filter_In in Hh. apply (S_live _ _ _ _ _ S). tauto.
     Qed.
   End SetSeq.
 
@@ -219,6 +222,7 @@ Section Steps.
       - apply e_cn_same. intros a Ha. cbn [cn_ok].
         rewrite (obs_cmt_observe p accts univ s' [] 0 a Ha), (obs_pend_observe p accts univ s' [] 0 a Ha).
         unfold get_pn, get_cn. cbn. rewrite N.eqb_refl. reflexivity.
+      - reflexivity.
       - apply e_lost_ok. intros; reflexivity.
       - reflexivity.
       - reflexivity.
@@ -231,6 +235,7 @@ Section Steps.
       - intros t E. discriminate.
       - constructor.
       - intro a. unfold get_cn. cbn. lia.
+      - intros x [].
     Qed.
   End Restart.
 
@@ -268,6 +273,7 @@ Section Steps.
       - reflexivity.
       - apply e_cn_same. intros a Ha. cbn [cn_ok]. rewrite Ep.
         rewrite (obs_cmt_observe p accts univ s' [] r a Ha), (obs_cmt_observe p accts univ s pbs pr a Ha). apply N.eqb_refl.
+      - reflexivity.
       - apply e_lost_ok. intros t Ht H1 H2.
         apply (prev_held p accts univ w s I S) in H1. destruct H1 as [_ H1].
         assert (Hgone : item_at s' (slot_of t) <> Some t).
@@ -296,6 +302,16 @@ Section Steps.
         destruct (mem slot_eqb (slot_of t) _); [discriminate | reflexivity].
       - unfold s', remove_old. scbn. apply (fold_aremove_NoDup slot_eqb slot_eqb_spec). apply (S_arr_nd _ _ _ _ _ S).
       - apply (S_led _ _ _ _ _ S).
+      - cbn [st_live]. intros h Hh. apply filter_In in Hh. destruct Hh as [Hh Hs].
+        pose proof (S_live _ _ _ _ _ S h Hh) as Hk.
+        destruct (alookup tx_eqb h (hashmap s)) as [sl|] eqn:El; [|apply (alookup_None tx_eqb tx_eqb_spec) in El; contradiction].
+        destruct (I_hm_wf _ _ _ I h sl El) as [-> _].
+        apply (slot_held_observe p accts univ s' [] r _ I' C) in Hs.
+        unfold s' in Hs. rewrite (ro_item s now dur) in Hs.
+        destruct (mem slot_eqb (slot_of h) (map slot_of (evict_list s now dur))) eqn:Em; [congruence|].
+        eapply (alookup_Some_key tx_eqb tx_eqb_spec). unfold s'. rewrite (ro_hashmap s now dur I).
+        destruct (mem tx_eqb h (evict_list s now dur)) eqn:Eh; [|rewrite El, Em; reflexivity].
+        exfalso. apply (mem_In tx_eqb tx_eqb_spec) in Eh. apply (mem_false slot_eqb slot_eqb_spec) in Em. apply Em. apply in_map. exact Eh.
     Qed.
   End RemoveOldStep.
 
@@ -343,6 +359,7 @@ Section Steps.
         split; [apply (C0 _ _ E) | rewrite Hit; exact E].
       - apply e_cn_same. intros a Ha. cbn [cn_ok]. rewrite Ep.
         rewrite (obs_cmt_observe p accts univ s' bs 0 a Ha), (obs_cmt_observe p accts univ s pbs pr a Ha), Hcn. apply N.eqb_refl.
+      - reflexivity.
       - apply e_lost_ok. intros t Ht H1 H2. exfalso. rewrite Ep in H1.
         rewrite (held_same s s' pbs pr bs 0 t I I' Hit) in H2. congruence.
       - reflexivity.
@@ -356,6 +373,7 @@ Section Steps.
       - intros t E. cbn [st_arr]. rewrite F3. rewrite Hit in E. apply (S_arr _ _ _ _ _ S). exact E.
       - rewrite F3. apply (S_arr_nd _ _ _ _ _ S).
       - intro a. rewrite Hcn. apply (S_led _ _ _ _ _ S).
+      - cbn [st_live]. intros h Hh. apply filter_In in Hh. rewrite F2. apply (S_live _ _ _ _ _ S). tauto.
     Qed.
   End GenerateStep.
 
@@ -487,6 +505,7 @@ Section Steps.
         split; [apply (pr_closed2 _ _ E) | rewrite Hit; exact E].
       - apply e_cn_same. intros a Ha. unfold o. cbn [cn_ok]. rewrite Ep.
         rewrite (obs_cmt_observe p accts univ s' bs 0 a Ha), (obs_cmt_observe p accts univ s pbs pr a Ha), Hcn. apply N.eqb_refl.
+      - reflexivity.
       - apply e_lost_ok. intros t Ht H1 H2.
         apply (prev_held p accts univ w s I S) in H1. destruct H1 as [_ H1].
         assert (Hgone : item_at s2 (slot_of t) <> Some t).
@@ -542,6 +561,13 @@ Section Steps.
           congruence.
       - rewrite F3. apply (pp_arr_nd s now txs). apply (S_arr_nd _ _ _ _ _ S).
       - intro a. unfold o. cbn [st_led]. rewrite Hcn. apply (S_led _ _ _ _ _ S).
+      - unfold o. cbn [st_live]. intros h Hh. apply filter_In in Hh. destruct Hh as [Hh _]. rewrite F2.
+        apply in_app_or in Hh. destruct Hh as [Hh|Hh].
+        + apply filter_In in Hh. destruct Hh as [_ Hc]. apply andb_true_iff in Hc. destruct Hc as [_ Hc].
+          apply (held_observe p accts univ s' bs 0 h I') in Hc. destruct Hc as [_ Hc]. rewrite Hit in Hc.
+          destruct h as [a n i ts]. unfold slot_of in Hc. cbn [t_acct t_nonce] in Hc.
+          eapply (alookup_Some_key tx_eqb tx_eqb_spec). apply (I_it_hash _ _ _ pr_I2 a n _ Hc). intros [].
+        + unfold s2. apply (pp_keys s now txs h). right. apply (S_live _ _ _ _ _ S). exact Hh.
     Qed.
   End ProcessStep.
 
@@ -589,6 +615,14 @@ Section Steps.
         destruct (N.eq_dec (cn_after s hs a) (get_cn s a)) as [E|Hne]; [rewrite E, N.eqb_refl; reflexivity|].
         apply orb_true_iff. right. destruct (commit_cn_why s hs I a) as [h [H1 [H2 H3]]]; [lia|].
         apply existsb_exists. exists h. split; [exact H1|]. rewrite H2, H3, !N.eqb_refl. reflexivity.
+      - unfold e_commit_missed, flag. replace (forallb _ hs) with true; [reflexivity|]. symmetry. apply forallb_forall.
+        intros h Hin. destruct (mem tx_eqb h (w_live w)) eqn:Em; [|reflexivity]. cbn [negb orb].
+        apply (mem_In tx_eqb tx_eqb_spec) in Em. pose proof (S_live _ _ _ _ _ S h Em) as Hk.
+        destruct (alookup tx_eqb h (hashmap s)) as [sl|] eqn:El; [|apply (alookup_None tx_eqb tx_eqb_spec) in El; contradiction].
+        destruct (I_hm_wf _ _ _ I h sl El) as [Esl _].
+        destruct (S_frame _ _ _ _ _ S h (S_sub _ _ _ _ _ S h Hk)) as [_ Ha].
+        rewrite (obs_cmt_observe p accts univ s' [] 0 _ Ha). unfold s'. rewrite (commit_cn s hs I).
+        pose proof (commit_recognised s hs I h sl Hin El) as Hr. rewrite Esl in Hr. cbn [fst snd slot_of] in Hr. apply N.leb_le. lia.
       - apply e_lost_ok. intros t Ht H1 H2.
         apply (prev_held p accts univ w s I S) in H1. destruct H1 as [_ H1].
         destruct (C0 _ _ H1) as [_ Ha].
@@ -608,6 +642,14 @@ Section Steps.
         rewrite (S_arr _ _ _ _ _ S t E). symmetry. apply (commit_arrival s hs I). exact Hge.
       - apply (commit_arr_nd s hs). apply (S_arr_nd _ _ _ _ _ S).
       - intro a. unfold s'. rewrite (commit_cn s hs I). pose proof (commit_cn_ge s hs I a). pose proof (S_led _ _ _ _ _ S a). cbn [st_led]. lia.
+      - cbn [st_live]. intros h Hh. apply filter_In in Hh. destruct Hh as [Hh Hs].
+        pose proof (S_live _ _ _ _ _ S h Hh) as Hk.
+        destruct (alookup tx_eqb h (hashmap s)) as [sl|] eqn:El; [|apply (alookup_None tx_eqb tx_eqb_spec) in El; contradiction].
+        destruct (I_hm_wf _ _ _ I h sl El) as [Esl _].
+        apply (slot_held_observe p accts univ s' [] 0 _ I' C) in Hs.
+        destruct (item_at s' (slot_of h)) as [t|] eqn:Et; [|congruence].
+        apply (commit_item s hs I) in Et. destruct Et as [_ Hge].
+        eapply (alookup_Some_key tx_eqb tx_eqb_spec). apply (commit_key_keep s hs I h sl El). rewrite Esl. exact Hge.
     Qed.
   End CommitStep.
 End Steps.
